@@ -407,6 +407,135 @@ theorem wake_client_alone (s : State) (c : Nat) (metas : List (Nat × Frame)) (f
   simp only [step, wakeFull, hne, Bool.false_eq_true, if_false]
   rw [lookup_newClients]
 
+/-! ### quiescence: what is left parked when the emitters go quiet
+
+The sockets are registered edge-triggered.  When the transport thread is back in `poll` and no further emission
+follows, a frame that is parked (`wbuf`) or queued (`msgs`) for a client is sent only when the kernel reports a
+WRITABLE edge for that client, and the kernel owes such an edge only after it REFUSED a write (`WouldBlock`, or
+a short write: the send buffer was full).  So the exporter may leave something parked only behind a refused
+write; after `Interrupted`, which says nothing about the socket, it has to retry by itself.  (That the owed edge
+does arrive is the kernel's and mio's business: exercised by the harness's quiet oracle on real sockets.) -/
+
+/-- **parked_only_after_refusal.** Whatever the socket answers (every list of write results, every client
+    state): if `drive_connection` returns `false` with a buffer parked in `wbuf`, the LAST `write` it made was
+    refused by the socket -- `WouldBlock` or a short write of that very buffer -- never `Interrupted`, never a
+    write taken whole.  (`starved` = the model was given fewer results than `write` calls; the driver rejects
+    such a replay as `bad-op`.) -/
+theorem parked_only_after_refusal (fx : Fixes) (rs : List WriteResult) (cl : Client)
+    (hd : (drive fx cl rs).done = false) (hw : (drive fx cl rs).cl.wbuf.isSome = true) :
+    (drive fx cl rs).starved = true ∨
+    ∃ pre r as a, rs = pre ++ r :: (drive fx cl rs).rest ∧ (drive fx cl rs).attempts = as ++ [a] ∧ Refused r a :=
+  drive_parks_only_on_refusal fx rs cl hd hw
+
+/-- **interrupted_is_transparent.** `Interrupted` changes nothing but the number of `write` calls: the same
+    buffer is offered again at once and the call ends exactly where it would have ended without the
+    interruption -- for EVERY continuation of write results.  In particular an interrupted write of the last
+    frame before a silence leaves nothing parked that the socket would have taken. -/
+theorem interrupted_is_transparent (fx : Fixes) (hfx : fx.block = true) (cl cl' : Client) (buf : List UInt8)
+    (rs : List WriteResult) (h : takeBuf cl = some (buf, cl')) :
+    drive fx cl (.interrupted :: rs) = (drive fx cl rs).push buf.length := by
+  have h2 := takeBuf_putBack h
+  simp only [drive, h, onBlock, hfx, if_true]
+  rw [drive_congr_some fx h2 h rs]
+
+theorem wakeClient_qbp (fx : Fixes) (hfx : fx.block = true) (lim : Nat) (batch : List Frame) (cl : Client)
+    (rs : List WriteResult) (h : QueueBehindParked cl) : QueueBehindParked (wakeClient fx lim batch cl rs).cl := by
+  unfold wakeClient
+  cases ha : cl.alive with
+  | false => simpa [ha] using h
+  | true =>
+    cases hd : (drive fx cl rs).done with
+    | true =>
+      simp only [Bool.not_true, Bool.false_eq_true, if_false, hd, if_true]
+      intro hal
+      simp at hal
+    | false =>
+      simp only [Bool.not_true, Bool.false_eq_true, if_false, hd]
+      intro hal hm
+      have hd2 : (drive fx (enqueue lim batch (drive fx cl rs).cl) (drive fx cl rs).rest).done = false := by
+        simpa using hal
+      exact Or.inl (drive_queue_left_parked fx hfx _ _ hd2 hm).1
+
+theorem writableClient_qbp (fx : Fixes) (hfx : fx.block = true) (c : Nat) (rs : List WriteResult) (k : Nat)
+    (cl : Client) (h : QueueBehindParked cl) : QueueBehindParked (writableClient fx c rs k cl).cl := by
+  unfold writableClient
+  split
+  · intro hal hm
+    have hd : (drive fx cl rs).done = false := by simpa using hal
+    exact Or.inl (drive_queue_left_parked fx hfx _ _ hd hm).1
+  · exact h
+
+theorem step_qbp (s : State) (e : Event) (hfx : s.fixes.block = true)
+    (h : ∀ p ∈ s.clients, QueueBehindParked p.2) : ∀ p ∈ (step s e).clients, QueueBehindParked p.2 := by
+  cases e with
+  | wake metas frames rs =>
+    simp only [step, wakeFull]
+    split
+    · exact h
+    · intro p hp
+      obtain ⟨q, hq, rfl⟩ := mem_newClients hp
+      exact wakeClient_qbp _ hfx _ _ _ _ (h q hq)
+  | accept perm =>
+    intro p hp
+    simp only [step, accept, List.mem_append, List.mem_singleton] at hp
+    rcases hp with hp | rfl
+    · exact h p hp
+    · intro _ _; exact Or.inr rfl
+  | writable c rs =>
+    intro p hp
+    simp only [step, writableFull] at hp
+    obtain ⟨q, hq, rfl⟩ := mem_newClients hp
+    exact writableClient_qbp _ hfx _ _ _ _ (h q hq)
+
+theorem run_qbp (s : State) (evs : List Event) (hfx : s.fixes.block = true)
+    (h : ∀ p ∈ s.clients, QueueBehindParked p.2) : ∀ p ∈ (run s evs).clients, QueueBehindParked p.2 := by
+  induction evs generalizing s with
+  | nil => exact h
+  | cons e es ih => exact ih _ (by rw [step_fixes]; exact hfx) (step_qbp s e hfx h)
+
+/-- **quiet_queue_only_behind_parked_buffer.** After EVERY sequence of events, for every connected client:
+    frames are still queued only behind a parked write buffer (which by `parked_only_after_refusal` a refusing
+    socket left there, so a WRITABLE edge is owed), or the client has just been accepted and never been driven
+    (its registration edge is owed).  The loop never goes back to `poll` leaving a queue that the socket was not
+    asked to take. -/
+theorem quiet_queue_only_behind_parked_buffer (bs : Option Nat) (s : State) (evs : List Event)
+    (h : initTransport {} bs = some s) (p : Nat × Client) (hp : p ∈ (run s evs).clients)
+    (ha : p.2.alive = true) (hm : p.2.msgs ≠ []) : p.2.wbuf.isSome = true ∨ p.2.started = [] := by
+  have hs := init_eq _ _ _ h
+  subst hs
+  exact run_qbp _ evs rfl (fun p hp => by cases hp) p hp ha hm
+
+/-- **quiet_unparked_client_has_everything.** After every sequence of events: a connected client that has been
+    driven at least once, has nothing parked in `wbuf` and never had a frame discarded has been handed EVERY
+    frame enqueued for it, whole and in order -- nothing waits for a later fan-out.  Together with
+    `parked_only_after_refusal`: when the emitters go quiet, every reading client either holds everything or is
+    owed a WRITABLE edge by the kernel. -/
+theorem quiet_unparked_client_has_everything (bs : Option Nat) (s : State) (evs : List Event)
+    (h : initTransport {} bs = some s) (p : Nat × Client) (hp : p ∈ (run s evs).clients)
+    (ha : p.2.alive = true) (hw : p.2.wbuf = none) (hst : p.2.started ≠ []) (hd : p.2.dropped = 0) :
+    p.2.msgs = [] ∧ p.2.received = flat p.2.sent := by
+  have hm : p.2.msgs = [] := by
+    apply Classical.byContradiction
+    intro hne
+    rcases quiet_queue_only_behind_parked_buffer bs s evs h p hp ha hne with h1 | h1
+    · rw [hw] at h1; cases h1
+    · exact hst h1
+  refine ⟨hm, ?_⟩
+  have := no_loss_for_reader bs s evs h p hp ha hd
+  simpa [hw, hm, flat] using this
+
+/-- the seed-C11-8 demo on the model: one client, the write of the last frame is interrupted once, then the
+    socket takes it -- everything is received, nothing parked; and when instead the socket REFUSES (`WouldBlock`)
+    the frame is parked, which is the only way to get there -/
+example : ∃ s, initTransport {} (some 16) = some s ∧
+    (run s [.accept [], .wake [] [⟨0, [3, 10, 20, 30]⟩] [(2, [.ok 4])],
+      .wake [] [⟨1, [2, 40, 50]⟩] [(2, [.interrupted, .ok 3])]]).clients.map
+        (fun p => (p.2.received, p.2.wbuf, p.2.msgs.length)) = [([3, 10, 20, 30, 2, 40, 50], none, 0)] ∧
+    (run s [.accept [], .wake [] [⟨0, [3, 10, 20, 30]⟩] [(2, [.ok 4])],
+      .wake [] [⟨1, [2, 40, 50]⟩] [(2, [.interrupted, .wouldBlock])]]).clients.map
+        (fun p => (p.2.received, p.2.wbuf, p.2.msgs.length)) = [([3, 10, 20, 30], some [2, 40, 50], 0)] :=
+  ⟨_, rfl, by decide, by decide⟩
+
 /-! ### the behaviour before each repair (kernel-evaluated witnesses) -/
 
 /-- before fix 1: `buffer_size(None)` → `VecDeque::with_capacity(usize::MAX)` panics; the exporter never serves -/
@@ -688,6 +817,19 @@ theorem src_fanout_shape :
     Generated.tcp_fanout_drain_extend =
       ["msgs.drain(0..to_drain)", "msgs.extend(buffered_pmsgs.iter().take(buffer_limit).cloned())"] := by
   decide
+
+/-- the arms of `drive_connection`'s `match write_to_client(..)` are the model's `drive`: `Ok(0)` and other errors
+    remove the client; a short write parks the remainder and returns; `WouldBlock` parks the buffer and returns;
+    `Interrupted` puts the buffer back and goes round the loop AGAIN (`continue`, the model's recursive call:
+    `interrupted_is_transparent`) -- it does not return with the frame parked, for which no WRITABLE edge would
+    ever be reported; and the two predicates test exactly the two error kinds -/
+theorem src_drive_arms :
+    Generated.tcp_drive_arms =
+      [("Ok(0)", "return true"), ("Ok(n) if n < buf.len()", "replace(remaining) return false"),
+       ("Ok(_)", "continue"), ("Err(ref e) if would_block(e)", "replace(buf) return false"),
+       ("Err(ref e) if interrupted(e)", "replace(buf) continue"), ("Err(e)", "return true")] ∧
+    Generated.tcp_would_block_body = "{ err.kind() == io::ErrorKind::WouldBlock }" ∧
+    Generated.tcp_interrupted_body = "{ err.kind() == io::ErrorKind::Interrupted }" := by decide
 
 /-- every metric frame gets its own `SystemTime::now()` -/
 theorem src_timestamp_per_metric :
